@@ -12,6 +12,7 @@ pub mod c08;
 pub mod c09;
 pub mod c10;
 pub mod c11;
+pub mod c12;
 pub mod c18;
 pub mod c19;
 
@@ -28,6 +29,7 @@ pub fn by_id(id: &str) -> Option<Arc<dyn Check>> {
         "C09" => Arc::new(c09::C09),
         "C10" => Arc::new(c10::C10),
         "C11" => Arc::new(c11::C11),
+        "C12" => Arc::new(c12::C12),
         "C18" => Arc::new(c18::C18),
         "C19" => Arc::new(c19::C19),
         _ => return None,
